@@ -42,7 +42,8 @@ def wide_schema():
                       F("name", 5, "string"), F("rb", 6, "bytes", "repeated"), F("rd", 7, "double", "repeated"), F("re", 8, "enum", "repeated", enum="E")]
     n = iter(range(1, 10000))
     types["TMapV"] = [F("mv_" + k, next(n), "map", "map", kkind="string", vkind=k, enum="E" if k == "enum" else "") for k in VALUE_KINDS] + \
-                     [F("mv_msg", 40, "map", "map", kkind="string", vkind="message", msg="Inner")]
+                     [F("mv_msg", 40, "map", "map", kkind="string", vkind="message", msg="Inner"),
+                      F("mv_ts", 41, "map", "map", kkind="string", vkind="timestamp"), F("mv_dur", 42, "map", "map", kkind="string", vkind="duration")]
     n = iter(range(1, 10000))
     types["TMapK"] = [F("mk_" + k, next(n), "map", "map", kkind=k, vkind="int32") for k in MAPKEYS] + \
                      [F("mk_i32_msg", 40, "map", "map", kkind="int32", vkind="message", msg="Inner")]
